@@ -2,7 +2,7 @@
 from checks_common import three
 
 CHECK = {
-    "runs": three("c10_gc", [], scales=(0.5, 0.6, 1.0)),
+    "runs": three("c10_gc", [], scales=(0.25, 0.3, 1.0)),
     "design_ref": "DESIGN.md §5 C10",
     "technique": "seeded retire / region / stop episodes on the real GarbageCollector under schedule perturbation (hook "
                  "points gc:consumed, gc:backoff, epoch:*, bq:*; interposed usleep back-off); per-reclaimer invocation "
